@@ -10,13 +10,18 @@
   exactly the negated line figures; inverting twice is the identity on the
   inputs; the document sum, discount and charge totals do not depend on row
   order, and a row's own figures do not depend on the other rows.
-  Not proved (metamorphic checks on the real code only): negation and order
-  independence of the complete tax summary, `remove_included_payable`, and
-  lines with breakdowns under inversion.
+  Whole document (Proofs/CalcInvert.lean): for a document of plain lines the
+  complete recalculation of the inverted document — lines, document discounts
+  and charges, the tax summary with included-tax removal, every total, the
+  advances and the presentation rounding — is the negated result.
+  Not proved (metamorphic checks on the real code only): order independence
+  of the complete tax summary, `remove_included_payable`, and lines with
+  breakdowns under inversion.
 -/
 import GoblVerif.Spec.C17
 import GoblVerif.Proofs.CalcNeg
 import GoblVerif.Proofs.CalcPerm
+import GoblVerif.Proofs.CalcInvert
 
 namespace GoblVerif.Props.C17
 open GoblVerif GoblVerif.Calc
@@ -111,7 +116,60 @@ theorem lines_independent (cur : String) (c : ℕ) (rates : List XRate) (r : Rul
           simp only [List.getElem_cons_succ]
           exact i2 j (by simpa using hi) (by simpa using ho)
 
+/-! ## the whole document under `Invert` -/
+
+/-- The tax summary of negated rows is the negated summary: every group base, amount and surcharge,
+every category amount, the precise sum and all presented roundings change sign; grouping, included-tax
+removal and the error cases are unchanged. -/
+theorem invert_negates_tax_summary (r : Rule) (c : ℕ) (includes : Option String) (rows : List Row) :
+    taxTotal exactOps r c includes (rows.map negRow) = (taxTotal exactOps r c includes rows).map negTax :=
+  taxTotal_neg r c includes rows
+
+/-- **`Invert` negates the whole calculation.**  `invertDoc` is the sign change `Invoice.Invert`
+applies to the inputs; `negOut` negates every computed figure (line sums and totals, line and document
+discount/charge amounts and bases, advances, every tax-summary figure, every total).  Payment due
+dates are compared separately because a fixed due amount keeps its sign in the code too. -/
+theorem invert_negates_document (d : Doc) (h : ∀ l ∈ d.lines, PlainLine l) (hr : d.rounding = none) :
+    (calculate exactOps (invertDoc d)).map Out.dropDues =
+      ((calculate exactOps d).map negOut).map Out.dropDues :=
+  calculate_invert d h hr
+
+/-- `negOut` really is a sign change: applying it twice gives the result back. -/
+theorem negate_totals_involutive (t : Totals) (h : t.taxes = none) : negTotals (negTotals t) = t := by
+  cases t
+  simp only [negTotals, Totals.mk.injEq, neg_neg', Option.map_map, true_and] at h ⊢
+  have hf : (neg ∘ neg) = (id : Amount → Amount) := by funext a; exact neg_neg' a
+  simp [hf, h]
+
 /-! ## non-vacuity -/
+
+/-- a document that meets the hypotheses of `invert_negates_document` and has taxes, a discount,
+included-tax removal and an advance -/
+def sampleDoc : Doc :=
+  { cur := "EUR", c := 2, rule := .precise, includes := some "VAT",
+    lines := [{ qty := ⟨3, 0⟩, item := some { price := some ⟨10005, 3⟩, cur := "", sub := 2, alts := [] },
+                discounts := [{ percent := some ⟨⟨10, 2⟩⟩, base := none, amount := ⟨0, 0⟩, rate := none, quantity := none }],
+                charges := [], breakdown := [],
+                taxes := [{ cat := "VAT", country := "", key := "standard", percent := some ⟨⟨21, 2⟩⟩,
+                            surcharge := none, ext := "", retained := false }] }],
+    discounts := [{ percent := some ⟨⟨5, 2⟩⟩, base := none, amount := ⟨0, 0⟩,
+                    taxes := [{ cat := "VAT", country := "", key := "standard", percent := some ⟨⟨21, 2⟩⟩,
+                                surcharge := none, ext := "", retained := false }] }],
+    charges := [], rates := [], rounding := none, hasPayment := true,
+    advances := [{ percent := some ⟨⟨50, 2⟩⟩, amount := ⟨0, 0⟩ }], dues := [] }
+
+example : (∀ l ∈ sampleDoc.lines, PlainLine l) ∧ sampleDoc.rounding = none := by
+  refine ⟨?_, rfl⟩
+  intro l hl
+  simp only [sampleDoc, List.mem_singleton] at hl
+  subst hl
+  exact ⟨rfl, rfl, rfl⟩
+
+example : ((calculate exactOps sampleDoc).toOption.bind (·.totals)).map (fun t => (t.sum, t.tax, t.payable, t.due)) =
+    some (⟨2701, 2⟩, ⟨445, 2⟩, ⟨2566, 2⟩, some ⟨1283, 2⟩) := by decide
+
+example : ((calculate exactOps (invertDoc sampleDoc)).toOption.bind (·.totals)).map (fun t => (t.sum, t.tax, t.payable, t.due)) =
+    some (⟨-2701, 2⟩, ⟨-445, 2⟩, ⟨-2566, 2⟩, some ⟨-1283, 2⟩) := by decide
 
 example : (calcLine exactOps "EUR" 2 [] .precise (invertLine
     { qty := ⟨3, 0⟩, item := some { price := some ⟨10005, 3⟩, cur := "", sub := 2, alts := [] },
